@@ -400,7 +400,19 @@ def r96(facts, res):
                 if d[1] == 'call' and cname(d[2]) == 'is_empty':
                     verdict, how = True, 'is_empty()'
                 elif d[1] == 'stmt' and d[2].get('bin') in ('Eq', 'Ne', 'Gt', 'Lt', 'Ge', 'Le'):
-                    ks = [op_const(d[2]['a']), op_const(d[2]['b'])]
+                    def kconst(o):
+                        k = op_const(o)
+                        l = op_local(o)
+                        for _ in range(3):
+                            if k is not None or l is None:
+                                break
+                            dd = b.defs().get(l, [])
+                            if len(dd) != 1 or dd[0][1] != 'stmt' or 'use' not in dd[0][2]:
+                                break
+                            k = op_const(dd[0][2]['use'])
+                            l = op_local(dd[0][2]['use'])
+                        return k
+                    ks = [kconst(d[2]['a']), kconst(d[2]['b'])]
                     if any(k is not None and k.get('int') == 0 for k in ks):
                         verdict, how = True, 'a comparison with 0'
                     else:
